@@ -37,12 +37,7 @@ Definition rt_entry_ok (tr : list rt_out) (e : Z * sq_node) : Prop :=
   exists l t, rt_tproj (qn_uid (snd e)) tr = l ++ [(t, qn_cnt (snd e), qn_timeout (snd e))] /\
               fst e = t + qn_timeout (snd e) * 2 ^ qn_cnt (snd e).
 
-Definition rt_sinv (tr : list rt_out) (st : rt_state) : Prop :=
-  Forall (rt_entry_ok tr) (sq_abs (rs_base st) (rs_q st)) /\
-  (forall u, rt_chain (rt_tproj u tr)) /\
-  (forall u, rs_uid st <= u -> rt_tproj u tr = []).
-
-(* outputs without a transmission of u do not change what is known about u *)
+(* outputs without a transmission *)
 Definition rt_no_tx (o : list rt_out) : Prop := forall u, rt_tproj u o = [].
 
 Lemma rt_no_tx_acked : forall t rm, rt_no_tx (map (fun n => RoAcked t (qn_uid n)) rm).
@@ -50,321 +45,6 @@ Proof. intros t rm u. induction rm as [|x rm IH]; [reflexivity|]. cbn. exact IH.
 
 Lemma rt_no_tx_nacked : forall t reason rm, rt_no_tx (map (rt_nack_of t reason) rm).
 Proof. intros t reason rm u. induction rm as [|x rm IH]; [reflexivity|]. cbn. exact IH. Qed.
-
-Lemma rt_entry_ok_other : forall tr o e, rt_tproj (qn_uid (snd e)) o = [] ->
-  rt_entry_ok tr e -> rt_entry_ok (tr ++ o) e.
-Proof.
-  intros tr o e N (l & t & E & D). exists l, t. rewrite rt_tproj_app, N, app_nil_r. auto.
-Qed.
-
-Lemma rt_sinv_no_tx : forall tr st o, rt_no_tx o -> rt_sinv tr st -> rt_sinv (tr ++ o) st.
-Proof.
-  intros tr st o N (F & C & Z0). split; [|split].
-  - eapply Forall_impl; [|exact F]. intros e He. apply rt_entry_ok_other; [apply N|exact He].
-  - intros u. rewrite rt_tproj_app, N, app_nil_r. apply C.
-  - intros u Hu. rewrite rt_tproj_app, N, app_nil_r. apply Z0. exact Hu.
-Qed.
-
-(* the absolute view after coap_wait_ack / re-insertion: the new entry is due at now + delay *)
-Lemma rt_abs_enqueue : forall st n d,
-  (rs_q st <> [] -> True) ->
-  Permutation (sq_abs (rs_base (rt_enqueue st n d)) (rs_q (rt_enqueue st n d)))
-              ((rs_now st + d, n) :: sq_abs (rs_base st) (rs_q st)).
-Proof.
-  intros st n d _. unfold rt_enqueue. destruct (rs_q st) as [|e q] eqn:E.
-  - cbn. apply Permutation_refl.
-  - cbn [rs_base rs_q rt_set_q]. rewrite sq_abs_insert.
-    replace (rs_base st + (rs_now st - rs_base st + d)) with (rs_now st + d) by lia.
-    apply Permutation_sym. apply sq_spec_insert_perm.
-Qed.
-
-Lemma rt_nodes_abs : forall q base, map snd (sq_abs base q) = rt_nodes q.
-Proof. induction q as [|[t n] r IH]; intros base; [reflexivity|]. cbn. f_equal. apply IH. Qed.
-
-(* uids of queue entries are distinct (from rt_rel), so a transmission of one node says nothing
-   about the others *)
-Lemma rt_other_uids : forall tr k n ns, rt_rel tr k (n :: ns) ->
-  Forall (fun n' => qn_uid n' <> qn_uid n) ns.
-Proof.
-  intros tr k n ns (_ & D & _ & _). cbn in D. inversion D; subst.
-  rewrite Forall_forall. intros n' I E. apply H1. rewrite <- E. apply in_map. exact I.
-Qed.
-
-Lemma rt_retransmit_sinv : forall st n tr d,
-  rt_rel tr (rs_uid st) (n :: rt_nodes (rs_q st)) ->
-  rt_sinv tr st -> rt_entry_ok tr (d, n) -> d <= rs_now st ->
-  let (st', o) := rt_retransmit st n in rt_sinv (tr ++ o) st'.
-Proof.
-  intros st n tr d R (F & C & Z0) (l & t & E & D) Due. cbn [fst snd] in E, D.
-  pose proof (rt_other_uids _ _ _ _ R) as Oth.
-  destruct R as (_ & _ & Fn & _). inversion Fn as [|? ? (A & B & M & _) _]; subst.
-  unfold rt_retransmit. destruct (qn_cnt n <? qn_max n) eqn:Ec.
-  - assert (Em : (qn_cnt n + 1) mod 256 = qn_cnt n + 1) by (apply Z.mod_small; lia).
-    rewrite Em.
-    set (n' := sq_mk_node (qn_uid n) (qn_sess n) (qn_mid n) (qn_cnt n + 1) (qn_timeout n) (qn_max n) (qn_bytes n)).
-    set (o := [RoTx (rs_now st) (qn_uid n) (qn_sess n) (qn_bytes n) (qn_cnt n + 1) (qn_timeout n)]).
-    assert (To : rt_tproj (qn_uid n) o = [(rs_now st, qn_cnt n + 1, qn_timeout n)]).
-    { cbn. rewrite Z.eqb_refl. reflexivity. }
-    assert (Tother : forall u, u <> qn_uid n -> rt_tproj u o = []).
-    { intros u Hu. cbn. assert (X : (qn_uid n =? u) = false) by lia. rewrite X. reflexivity. }
-    split; [|split].
-    + eapply Permutation_Forall; [apply Permutation_sym; apply rt_abs_enqueue; auto|].
-      constructor.
-      * exists (l ++ [(t, qn_cnt n, qn_timeout n)]), (rs_now st). cbn [fst snd n' qn_uid qn_cnt qn_timeout].
-        rewrite rt_tproj_app, E, To. split; reflexivity.
-      * rewrite Forall_forall in *. intros e I. apply rt_entry_ok_other; [|apply F; exact I].
-        apply Tother. apply Oth. rewrite <- (rt_nodes_abs _ (rs_base st)). apply in_map. exact I.
-    + intros u. rewrite rt_tproj_app. destruct (Z.eq_dec u (qn_uid n)) as [->|Ne].
-      * rewrite E, To. apply rt_ch_next; [rewrite <- E; apply C|lia|lia].
-      * rewrite (Tother u Ne), app_nil_r. apply C.
-    + intros u Hu. destruct (rt_enqueue_nodes st n' (qn_timeout n * 2 ^ (qn_cnt n + 1))) as (_ & U & _).
-      rewrite U in Hu. rewrite rt_tproj_app, (Z0 u Hu). apply Tother. lia.
-  - apply rt_sinv_no_tx; [intros u; reflexivity|]. split; [exact F|split; [exact C|exact Z0]].
-Qed.
-
-Lemma rt_due_head : forall st, rt_due st = true ->
-  exists t0 n0 rest, rs_q st = (t0, n0) :: rest /\ rs_base st + t0 <= rs_now st.
-Proof.
-  intros st D. unfold rt_due in D. destruct (rs_q st) as [|[t0 n0] rest]; [discriminate|].
-  exists t0, n0, rest. split; [reflexivity|lia].
-Qed.
-
-Lemma rt_fire_sinv : forall fuel st tr,
-  rt_rel tr (rs_uid st) (rt_nodes (rs_q st)) -> rt_sinv tr st ->
-  let (st', o) := rt_fire fuel st in rt_sinv (tr ++ o) st'.
-Proof.
-  induction fuel as [|f IH]; intros st tr R S; cbn [rt_fire].
-  - apply rt_sinv_no_tx; [|exact S]. intros u. destruct (rt_due st); reflexivity.
-  - destruct (rt_due st) eqn:Du; [|rewrite app_nil_r; exact S].
-    destruct (rt_due_head st Du) as (t0 & n0 & rest & Q & Le).
-    rewrite Q. cbn [sq_pop].
-    destruct S as (F & C & Z0). rewrite Q in F. cbn [sq_abs] in F. inversion F as [|? ? He F']; subst.
-    assert (R' : rt_rel tr (rs_uid (rt_set_q st (sq_bump t0 rest))) (n0 :: rt_nodes (rs_q (rt_set_q st (sq_bump t0 rest))))).
-    { cbn [rt_set_q rs_uid rs_q]. rewrite rt_nodes_bump. rewrite Q in R. exact R. }
-    assert (S' : rt_sinv tr (rt_set_q st (sq_bump t0 rest))).
-    { split; [|split; [exact C|exact Z0]]. cbn [rt_set_q rs_base rs_q]. rewrite sq_abs_bump. exact F'. }
-    pose proof (rt_retransmit_sinv (rt_set_q st (sq_bump t0 rest)) n0 tr (rs_base st + t0) R' S' He Le) as H1.
-    pose proof (rt_retransmit_rel (rt_set_q st (sq_bump t0 rest)) n0 tr R') as H2.
-    destruct (rt_retransmit (rt_set_q st (sq_bump t0 rest)) n0) as [st1 o1]. destruct H2 as [R1 _].
-    specialize (IH st1 (tr ++ o1) R1 H1). destruct (rt_fire f st1) as [st2 o2].
-    rewrite app_assoc. exact IH.
-Qed.
-
-Lemma rt_sinv_sub : forall tr st q',
-  rt_sinv tr st -> (forall e, In e (sq_abs (rs_base st) q') -> In e (sq_abs (rs_base st) (rs_q st))) ->
-  rt_sinv tr (rt_set_q st q').
-Proof.
-  intros tr st q' (F & C & Z0) Sub. split; [|split; [exact C|exact Z0]].
-  cbn [rt_set_q rs_base rs_q]. rewrite Forall_forall in *. intros e I. apply F. apply Sub. exact I.
-Qed.
-
-Lemma rt_step_sinv : forall st ev tr,
-  rt_ev_ok ev -> rt_rel tr (rs_uid st) (rt_nodes (rs_q st)) -> rt_sinv tr st ->
-  let (st', o) := rt_step st ev in rt_sinv (tr ++ o) st'.
-Proof.
-  intros st ev tr Hev R S. destruct ev as [dt|s m b cfg r| |s m|s m|s m tok|s reason|s m|tmo|]; cbn [rt_step].
-  - rewrite app_nil_r. destruct S as (F & C & Z0). split; [exact F|split; [exact C|exact Z0]].
-  - unfold rt_send. set (T := fp_calc_timeout _ _ _ _ _).
-    set (n := sq_mk_node _ _ _ _ _ _ _). set (st1 := rt_mk_state _ _ _ _).
-    destruct S as (F & C & Z0).
-    set (o := [RoTx (rs_now st) (rs_uid st) s b 0 T; RoSent m]).
-    assert (To : rt_tproj (rs_uid st) o = [(rs_now st, 0, T)]) by (cbn; rewrite Z.eqb_refl; reflexivity).
-    assert (Tother : forall u, u <> rs_uid st -> rt_tproj u o = []).
-    { intros u Hu. cbn. assert (X : (rs_uid st =? u) = false) by lia. rewrite X. reflexivity. }
-    assert (Fresh : Forall (fun e => qn_uid (snd e) <> rs_uid st) (sq_abs (rs_base st) (rs_q st))).
-    { destruct R as (_ & _ & Fn & _). rewrite Forall_forall in *. intros e I.
-      assert (In (snd e) (rt_nodes (rs_q st))) by (rewrite <- (rt_nodes_abs _ (rs_base st)); apply in_map; exact I).
-      destruct (Fn _ H) as (A & _). lia. }
-    split; [|split].
-    + eapply Permutation_Forall; [apply Permutation_sym; apply (rt_abs_enqueue st1 n T); auto|].
-      cbn [st1 rs_now rs_base rs_q]. constructor.
-      * exists [], (rs_now st). cbn [fst snd n qn_uid qn_cnt qn_timeout].
-        rewrite rt_tproj_app, (Z0 (rs_uid st)) by lia. rewrite To. split; [reflexivity|].
-        rewrite Z.pow_0_r. lia.
-      * rewrite Forall_forall in *. intros e I. apply rt_entry_ok_other; [|apply F; exact I].
-        apply Tother. apply Fresh. exact I.
-    + intros u. rewrite rt_tproj_app. destruct (Z.eq_dec u (rs_uid st)) as [->|Ne].
-      * rewrite (Z0 (rs_uid st)) by lia. rewrite To. apply rt_ch_first.
-      * rewrite (Tother u Ne), app_nil_r. apply C.
-    + intros u Hu. destruct (rt_enqueue_nodes st1 n T) as (_ & U & _). rewrite U in Hu.
-      cbn [st1 rs_uid] in Hu. rewrite rt_tproj_app, (Z0 u) by lia. apply Tother. lia.
-  - unfold rt_tick, rt_fire_all.
-    pose proof (rt_fire_sinv (rt_budget (rs_q st)) st tr R S) as H.
-    destruct (rt_fire (rt_budget (rs_q st)) st) as [st1 o]. destruct (rt_wait st1) as [w hd].
-    rewrite app_assoc. apply rt_sinv_no_tx; [intros u; reflexivity|exact H].
-  - unfold rt_ack, rt_fire_all. destruct (sq_remove (rs_q st) s m) as [[[t n] q']|] eqn:Rm.
-    + destruct (rt_nodes_remove _ _ _ _ _ _ Rm) as [P _].
-      destruct (sq_remove_others _ (rs_base st) _ _ _ _ _ Rm) as (l1 & l2 & d & E1 & E2 & _ & _).
-      assert (S1 : rt_sinv (tr ++ [RoAcked (rs_now st) (qn_uid n)]) (rt_set_q st q')).
-      { apply rt_sinv_no_tx; [intros u; reflexivity|]. apply rt_sinv_sub; [exact S|].
-        intros e I. rewrite E2 in I. rewrite E1. apply in_app_or in I. apply in_or_app.
-        destruct I; [left|right; right]; assumption. }
-      assert (R1 : rt_rel (tr ++ [RoAcked (rs_now st) (qn_uid n)]) (rs_uid st) (rt_nodes q')).
-      { eapply rt_rel_drop with (n := n) (tag := PAcked); [intros _; exact I| | |].
-        - cbn. rewrite Z.eqb_refl. reflexivity.
-        - intros u Hu. cbn. assert (X : (qn_uid n =? u) = false) by lia. rewrite X. reflexivity.
-        - eapply rt_rel_perm; [exact P|exact R]. }
-      pose proof (rt_fire_sinv (rt_budget (rs_q (rt_set_q st q'))) (rt_set_q st q') _ R1 S1) as H.
-      destruct (rt_fire _ (rt_set_q st q')) as [st1 o]. rewrite <- app_assoc in H. exact H.
-    + pose proof (rt_fire_sinv (rt_budget (rs_q st)) st tr R S) as H.
-      destruct (rt_fire (rt_budget (rs_q st)) st) as [st1 o]. exact H.
-  - unfold rt_rst, rt_fire_all. destruct (sq_remove (rs_q st) s m) as [[[t n] q']|] eqn:Rm.
-    + destruct (rt_nodes_remove _ _ _ _ _ _ Rm) as [P _].
-      destruct (sq_remove_others _ (rs_base st) _ _ _ _ _ Rm) as (l1 & l2 & d & E1 & E2 & _ & _).
-      set (o0 := [RoNack (rs_now st) (qn_uid n) (qn_sess n) rt_NACK_RST (qn_mid n) (qn_cnt n) (qn_max n)]).
-      assert (S1 : rt_sinv (tr ++ o0) (rt_set_q st q')).
-      { apply rt_sinv_no_tx; [intros u; reflexivity|]. apply rt_sinv_sub; [exact S|].
-        intros e I. rewrite E2 in I. rewrite E1. apply in_app_or in I. apply in_or_app.
-        destruct I; [left|right; right]; assumption. }
-      assert (R1 : rt_rel (tr ++ o0) (rs_uid st) (rt_nodes q')).
-      { eapply rt_rel_drop with (n := n) (tag := PNack rt_NACK_RST (qn_cnt n) (qn_max n));
-          [intros (A & B & M & O); cbn; repeat split; try lia; intros X; discriminate| | |].
-        - cbn. rewrite Z.eqb_refl. reflexivity.
-        - intros u Hu. cbn. assert (X : (qn_uid n =? u) = false) by lia. rewrite X. reflexivity.
-        - eapply rt_rel_perm; [exact P|exact R]. }
-      pose proof (rt_fire_sinv (rt_budget (rs_q (rt_set_q st q'))) (rt_set_q st q') _ R1 S1) as H.
-      destruct (rt_fire _ (rt_set_q st q')) as [st1 o]. rewrite <- app_assoc in H. exact H.
-    + set (o0 := [RoNackNoPdu (rs_now st) s rt_NACK_RST m]).
-      assert (S1 : rt_sinv (tr ++ o0) st) by (apply rt_sinv_no_tx; [intros u; reflexivity|exact S]).
-      assert (R1 : rt_rel (tr ++ o0) (rs_uid st) (rt_nodes (rs_q st)))
-        by (apply rt_rel_neutral; [intros u; reflexivity|exact R]).
-      pose proof (rt_fire_sinv (rt_budget (rs_q st)) st _ R1 S1) as H.
-      destruct (rt_fire (rt_budget (rs_q st)) st) as [st1 o]. rewrite <- app_assoc in H. exact H.
-  - unfold rt_non, rt_fire_all.
-    pose proof (rt_nodes_cancel (rt_tok_match s tok) (rs_q st)) as P.
-    pose proof (sq_abs_cancel (rt_tok_match s tok) (rs_q st) (rs_base st)) as [A _].
-    destruct (sq_cancel (rt_tok_match s tok) (rs_q st)) as [rm q']. cbn [fst snd] in *.
-    set (o0 := map (fun n => RoAcked (rs_now st) (qn_uid n)) rm).
-    assert (N0 : rt_no_tx o0) by apply rt_no_tx_acked.
-    assert (S1 : rt_sinv (tr ++ o0) (rt_set_q st q')).
-    { apply rt_sinv_no_tx; [exact N0|]. apply rt_sinv_sub; [exact S|].
-      intros e I. rewrite A in I. apply filter_In in I. tauto. }
-    assert (R1 : rt_rel (tr ++ o0) (rs_uid st) (rt_nodes q')).
-    { apply rt_rel_drop_acked. eapply rt_rel_perm; [exact P|exact R]. }
-    pose proof (rt_fire_sinv (rt_budget (rs_q (rt_set_q st q'))) (rt_set_q st q') _ R1 S1) as H.
-    destruct (rt_fire _ (rt_set_q st q')) as [st1 o]. rewrite <- app_assoc in H. exact H.
-  - unfold rt_disconnect.
-    pose proof (sq_abs_cancel (rt_sess_match s) (rs_q st) (rs_base st)) as [A _].
-    destruct (sq_cancel (rt_sess_match s) (rs_q st)) as [rm q']. cbn [fst snd] in *.
-    apply rt_sinv_no_tx.
-    + destruct rm; [intros u; reflexivity|apply rt_no_tx_nacked].
-    + apply rt_sinv_sub; [exact S|]. intros e I. rewrite A in I. apply filter_In in I. tauto.
-  - unfold rt_delete. destruct (sq_remove (rs_q st) s m) as [[[t n] q']|] eqn:Rm.
-    + destruct (sq_remove_others _ (rs_base st) _ _ _ _ _ Rm) as (l1 & l2 & d & E1 & E2 & _ & _).
-      apply rt_sinv_no_tx; [intros u; reflexivity|]. apply rt_sinv_sub; [exact S|].
-      intros e I. rewrite E2 in I. rewrite E1. apply in_app_or in I. apply in_or_app.
-      destruct I; [left|right; right]; assumption.
-    + rewrite app_nil_r. exact S.
-  - unfold rt_io_process, rt_fire_all.
-    pose proof (rt_fire_sinv (rt_budget (rs_q st)) st tr R S) as H1.
-    pose proof (rt_fire_rel (rt_budget (rs_q st)) st tr R) as H1r.
-    destruct (rt_fire (rt_budget (rs_q st)) st) as [st1 o1]. destruct H1r as [R1 _].
-    destruct (rt_wait st1) as [w hd]. set (et := rt_epoll_timeout w tmo).
-    set (st2 := rt_mk_state _ (rs_base st1) (rs_q st1) (rs_uid st1)).
-    assert (S2 : rt_sinv ((tr ++ o1) ++ [RoEpoll (rs_now st1) et]) st2).
-    { apply rt_sinv_no_tx; [intros u; reflexivity|]. destruct H1 as (F & C & Z0).
-      split; [exact F|split; [exact C|exact Z0]]. }
-    assert (R2 : rt_rel ((tr ++ o1) ++ [RoEpoll (rs_now st1) et]) (rs_uid st2) (rt_nodes (rs_q st2)))
-      by (apply rt_rel_neutral; [intros u; reflexivity|exact R1]).
-    pose proof (rt_fire_sinv (rt_budget (rs_q st2)) st2 _ R2 S2) as H3.
-    destruct (rt_fire (rt_budget (rs_q st2)) st2) as [st3 o3].
-    replace (tr ++ o1 ++ RoEpoll (rs_now st1) et :: o3 ++ [RoIoRet (rs_now st3) (rs_now st3 - rs_now st)])
-      with ((((tr ++ o1) ++ [RoEpoll (rs_now st1) et]) ++ o3) ++ [RoIoRet (rs_now st3) (rs_now st3 - rs_now st)])
-      by (repeat rewrite <- app_assoc; reflexivity).
-    apply rt_sinv_no_tx; [intros u; reflexivity|exact H3].
-  - apply rt_sinv_no_tx; [intros u; reflexivity|exact S].
-Qed.
-
-Lemma rt_run_sinv : forall evs st tr,
-  Forall rt_ev_ok evs -> rt_rel tr (rs_uid st) (rt_nodes (rs_q st)) -> rt_sinv tr st ->
-  let (st', o) := rt_run st evs in
-  rt_sinv (tr ++ o) st' /\ rt_rel (tr ++ o) (rs_uid st') (rt_nodes (rs_q st')).
-Proof.
-  induction evs as [|ev rest IH]; intros st tr F R S; cbn [rt_run].
-  - rewrite app_nil_r. auto.
-  - inversion F; subst. pose proof (rt_step_sinv st ev tr H1 R S) as HS.
-    pose proof (rt_step_rel st ev tr H1 R) as HR.
-    destruct (rt_step st ev) as [st1 o1]. specialize (IH st1 (tr ++ o1) H2 HR HS).
-    destruct (rt_run st1 rest) as [st2 o2]. rewrite app_assoc. exact IH.
-Qed.
-
-Lemma rt_sinv_init : forall t0, rt_sinv [] (rt_init t0).
-Proof. intros. split; [constructor|]. split; intros; [constructor|reflexivity]. Qed.
-
-(* ------------------------------------------------------------------ reading a chain *)
-Lemma rt_chain_last : forall l t c T, rt_chain (l ++ [(t, c, T)]) -> c = Z.of_nat (length l).
-Proof.
-  intros l t c T H. remember (l ++ [(t, c, T)]) as L eqn:E. revert l t c T E.
-  induction H as [|t1 T1|l1 t1 c1 T1 t2 H IH Hc Hle]; intros l t c T E.
-  - destruct l; discriminate.
-  - destruct l as [|a l]; [inversion E; reflexivity|]. destruct l; discriminate.
-  - apply app_inj_tail in E. destruct E as [E1 E2]. inversion E2; subst.
-    rewrite app_length. cbn [length]. rewrite (IH _ _ _ _ eq_refl). lia.
-Qed.
-
-Lemma rt_chain_nth : forall L, rt_chain L ->
-  forall i t c T, nth_error L i = Some (t, c, T) ->
-    c = Z.of_nat i /\
-    forall t' c' T', nth_error L (S i) = Some (t', c', T') -> T' = T /\ t + T * 2 ^ c <= t'.
-Proof.
-  intros L H. induction H as [|t1 T1|l1 t1 c1 T1 t2 H IH Hc Hle]; intros i t c T N.
-  - destruct i; discriminate.
-  - destruct i as [|i]; [|destruct i; discriminate]. cbn in N. inversion N; subst.
-    split; [reflexivity|]. intros t' c' T' N'. discriminate.
-  - set (L1 := l1 ++ [(t1, c1, T1)]) in *.
-    assert (Len : length L1 = S (length l1)) by (unfold L1; rewrite app_length; cbn; lia).
-    pose proof (rt_chain_last l1 t1 c1 T1 H) as Ec.
-    destruct (Nat.lt_ge_cases i (length L1)) as [Lt|Ge].
-    + rewrite nth_error_app1 in N by exact Lt. destruct (IH i t c T N) as [Ei Nx].
-      split; [exact Ei|]. intros t' c' T' N'.
-      destruct (Nat.lt_ge_cases (S i) (length L1)) as [Lt2|Ge2].
-      * rewrite nth_error_app1 in N' by exact Lt2. apply (Nx t' c' T' N').
-      * assert (Ei2 : i = length l1) by lia. subst i.
-        rewrite nth_error_app2 in N' by lia. replace (S (length l1) - length L1)%nat with 0%nat in N' by lia.
-        cbn in N'. inversion N'; subst.
-        unfold L1 in N. rewrite nth_error_app2 in N by lia. rewrite Nat.sub_diag in N. cbn in N.
-        inversion N; subst. split; [reflexivity|exact Hle].
-    + rewrite nth_error_app2 in N by exact Ge.
-      destruct (i - length L1)%nat as [|k] eqn:Ek; [|destruct k; discriminate].
-      cbn in N. inversion N; subst. split; [lia|].
-      intros t' c' T' N'. rewrite nth_error_app2 in N' by lia.
-      replace (S i - length L1)%nat with 1%nat in N' by lia. discriminate.
-Qed.
-
-(* ------------------------------------------------------------------ the theorems *)
-(* transmission number i of a message carries counter i; the next one comes with the same T,
-   no earlier than T * 2^i after it *)
-Theorem rt_spacing : forall t0 evs u,
-  Forall rt_ev_ok evs ->
-  let tr := snd (rt_run (rt_init t0) evs) in
-  forall i t c T, nth_error (rt_tproj u tr) i = Some (t, c, T) ->
-    c = Z.of_nat i /\
-    forall t' c' T', nth_error (rt_tproj u tr) (S i) = Some (t', c', T') ->
-      T' = T /\ t + T * 2 ^ Z.of_nat i <= t'.
-Proof.
-  intros t0 evs u F tr i t c T N.
-  pose proof (rt_run_sinv evs (rt_init t0) [] F rt_rel_init (rt_sinv_init t0)) as H.
-  unfold tr in *. destruct (rt_run (rt_init t0) evs) as [st o]. cbn [app snd] in *.
-  destruct H as [(_ & C & _) _]. destruct (rt_chain_nth _ (C u) i t c T N) as [Ei Nx].
-  split; [exact Ei|]. intros t' c' T' N'. rewrite <- Ei. apply (Nx t' c' T' N').
-Qed.
-
-(* the deadline of every queued message: last transmission + T * 2^retransmit_cnt, where the
-   last transmission is the one with counter retransmit_cnt and T is the node's timeout *)
-Theorem rt_deadline_law : forall t0 evs d n,
-  Forall rt_ev_ok evs ->
-  let st := fst (rt_run (rt_init t0) evs) in
-  let tr := snd (rt_run (rt_init t0) evs) in
-  In (d, n) (sq_abs (rs_base st) (rs_q st)) ->
-  exists l t, rt_tproj (qn_uid n) tr = l ++ [(t, qn_cnt n, qn_timeout n)] /\
-              d = t + qn_timeout n * 2 ^ qn_cnt n.
-Proof.
-  intros t0 evs d n F st tr I.
-  pose proof (rt_run_sinv evs (rt_init t0) [] F rt_rel_init (rt_sinv_init t0)) as H.
-  unfold st, tr in *. destruct (rt_run (rt_init t0) evs) as [st' o]. cbn [app fst snd] in *.
-  destruct H as [(Fa & _ & _) _]. rewrite Forall_forall in Fa. apply (Fa (d, n) I).
-Qed.
-
 
 (* ------------------------------------------------------------------ giving up is never early *)
 (* every NACK TOO_MANY_RETRIES in the trace comes no earlier than T * 2^cnt after the last
@@ -412,151 +92,618 @@ Lemma rt_no_giveup_nacked : forall t reason rm, reason <> rt_NACK_TOO_MANY_RETRI
   rt_no_giveup (map (rt_nack_of t reason) rm).
 Proof. intros. unfold rt_no_giveup. induction rm; cbn; constructor; auto. Qed.
 
-Lemma rt_retransmit_ginv : forall st n tr d,
-  rt_entry_ok tr (d, n) -> d <= rs_now st -> rt_giveups_ok tr ->
-  rt_giveups_ok (tr ++ snd (rt_retransmit st n)).
+(* the invariant: every queue entry knows its last transmission; the transmissions of every
+   message form a chain; messages not yet accepted and messages that wait for a slot have none;
+   no give-up so far was early *)
+Definition rt_sinvg (tr : list rt_out) (st : rt_state) (hl : list sq_node) : Prop :=
+  Forall (rt_entry_ok tr) (sq_abs (rs_base st) (rs_q st)) /\
+  (forall u, rt_chain (rt_tproj u tr)) /\
+  (forall u, rs_uid st <= u -> rt_tproj u tr = []) /\
+  Forall (fun n => rt_tproj (qn_uid n) tr = []) hl /\
+  rt_giveups_ok tr.
+Definition rt_sinv (tr : list rt_out) (st : rt_state) : Prop := rt_sinvg tr st (rt_held (rs_sess st)).
+
+Lemma rt_entry_ok_other : forall tr o e, rt_tproj (qn_uid (snd e)) o = [] ->
+  rt_entry_ok tr e -> rt_entry_ok (tr ++ o) e.
 Proof.
-  intros st n tr d (l & t & E & D) Due G. cbn [fst snd] in E, D.
-  unfold rt_retransmit. destruct (qn_cnt n <? qn_max n); cbn [snd].
-  - apply rt_giveups_app; [exact G|]. repeat constructor.
-  - apply rt_giveups_snoc; [exact G|]. cbn. intros _. exists l, t, (qn_timeout n). split; [exact E|lia].
+  intros tr o e N (l & t & E & D). exists l, t. rewrite rt_tproj_app, N, app_nil_r. auto.
 Qed.
 
-Lemma rt_fire_ginv : forall fuel st tr,
-  rt_rel tr (rs_uid st) (rt_nodes (rs_q st)) -> rt_sinv tr st -> rt_giveups_ok tr ->
-  rt_giveups_ok (tr ++ snd (rt_fire fuel st)).
+(* outputs without transmission and without give-up change nothing *)
+Lemma rt_sinv_quiet : forall tr st o, rt_no_tx o -> rt_no_giveup o -> rt_sinv tr st -> rt_sinv (tr ++ o) st.
 Proof.
-  induction fuel as [|f IH]; intros st tr R S G; cbn [rt_fire].
-  - cbn [snd]. apply rt_giveups_app; [exact G|]. destruct (rt_due st); repeat constructor.
-  - destruct (rt_due st) eqn:Du; [|cbn; rewrite app_nil_r; exact G].
+  intros tr st o N NG (F & C & Z0 & H & G). split; [|split; [|split; [|split]]].
+  - eapply Forall_impl; [|exact F]. intros e He. apply rt_entry_ok_other; [apply N|exact He].
+  - intros u. rewrite rt_tproj_app, N, app_nil_r. apply C.
+  - intros u Hu. rewrite rt_tproj_app, N, app_nil_r. apply Z0. exact Hu.
+  - eapply Forall_impl; [|exact H]. intros n Hn. rewrite rt_tproj_app, N, app_nil_r. exact Hn.
+  - apply rt_giveups_app; assumption.
+Qed.
+
+(* the absolute view after coap_wait_ack / re-insertion: the new entry is due at now + delay *)
+Lemma rt_abs_enqueue : forall st n d,
+  Permutation (sq_abs (rs_base (rt_enqueue st n d)) (rs_q (rt_enqueue st n d)))
+              ((rs_now st + d, n) :: sq_abs (rs_base st) (rs_q st)).
+Proof.
+  intros st n d. unfold rt_enqueue. destruct (rs_q st) as [|e q] eqn:E.
+  - cbn. apply Permutation_refl.
+  - cbn [rs_base rs_q rt_set_q]. rewrite sq_abs_insert.
+    replace (rs_base st + (rs_now st - rs_base st + d)) with (rs_now st + d) by lia.
+    apply Permutation_sym. apply sq_spec_insert_perm.
+Qed.
+
+Lemma rt_nodes_abs : forall q base, map snd (sq_abs base q) = rt_nodes q.
+Proof. induction q as [|[t n] r IH]; intros base; [reflexivity|]. cbn. f_equal. apply IH. Qed.
+
+(* a message (uid below rs_uid, different from the uids of all other pending messages) is
+   transmitted and (re-)enters the queue with the matching deadline *)
+Lemma rt_sinvg_tx : forall tr st hl n' c,
+  c = qn_cnt n' -> qn_uid n' < rs_uid st ->
+  rt_chain (rt_tproj (qn_uid n') tr ++ [(rs_now st, c, qn_timeout n')]) ->
+  Forall (fun x => qn_uid x <> qn_uid n') (rt_nodes (rs_q st) ++ hl) ->
+  rt_sinvg tr st hl ->
+  rt_sinvg (tr ++ [RoTx (rs_now st) (qn_uid n') (qn_sess n') (qn_bytes n') c (qn_timeout n')])
+           (rt_enqueue st n' (qn_timeout n' * 2 ^ c)) hl.
+Proof.
+  intros tr st hl n' c Ec Hu Hch Oth (F & C & Z0 & H & G).
+  set (o := [RoTx (rs_now st) (qn_uid n') (qn_sess n') (qn_bytes n') c (qn_timeout n')]).
+  assert (To : rt_tproj (qn_uid n') o = [(rs_now st, c, qn_timeout n')]) by (cbn; rewrite Z.eqb_refl; reflexivity).
+  assert (Tother : forall u, u <> qn_uid n' -> rt_tproj u o = []).
+  { intros u Hn. cbn. assert (X : (qn_uid n' =? u) = false) by lia. rewrite X. reflexivity. }
+  destruct (rt_enqueue_nodes st n' (qn_timeout n' * 2 ^ c)) as (_ & U & _ & S).
+  apply Forall_app in Oth. destruct Oth as [Oq Oh].
+  split; [|split; [|split; [|split]]].
+  - eapply Permutation_Forall; [apply Permutation_sym; apply rt_abs_enqueue|]. constructor.
+    + exists (rt_tproj (qn_uid n') tr), (rs_now st). cbn [fst snd]. rewrite rt_tproj_app, To, Ec. split; reflexivity.
+    + rewrite Forall_forall in *. intros e I. apply rt_entry_ok_other; [|apply F; exact I].
+      apply Tother. apply Oq. rewrite <- (rt_nodes_abs _ (rs_base st)). apply in_map. exact I.
+  - intros u. rewrite rt_tproj_app. destruct (Z.eq_dec u (qn_uid n')) as [->|Ne].
+    + rewrite To. exact Hch.
+    + rewrite (Tother u Ne), app_nil_r. apply C.
+  - intros u Hge. rewrite U in Hge. rewrite rt_tproj_app, (Z0 u Hge). apply Tother. lia.
+  - rewrite Forall_forall in *. intros x I. rewrite rt_tproj_app, (H x I).
+    apply Tother. apply Oh. exact I.
+  - apply rt_giveups_app; [exact G|]. repeat constructor.
+Qed.
+
+Lemma rt_sinv_tx : forall tr st n' c,
+  c = qn_cnt n' -> qn_uid n' < rs_uid st ->
+  rt_chain (rt_tproj (qn_uid n') tr ++ [(rs_now st, c, qn_timeout n')]) ->
+  Forall (fun x => qn_uid x <> qn_uid n') (rt_live st) ->
+  rt_sinv tr st ->
+  rt_sinv (tr ++ [RoTx (rs_now st) (qn_uid n') (qn_sess n') (qn_bytes n') c (qn_timeout n')])
+          (rt_enqueue st n' (qn_timeout n' * 2 ^ c)).
+Proof.
+  intros tr st n' c Ec Hu Hch Oth S. unfold rt_sinv.
+  destruct (rt_enqueue_nodes st n' (qn_timeout n' * 2 ^ c)) as (_ & _ & _ & Sx). rewrite Sx.
+  apply rt_sinvg_tx; assumption.
+Qed.
+
+(* queue and waiting list shrink (or are permuted) *)
+Lemma rt_sinv_sub : forall tr st st',
+  rs_uid st' = rs_uid st ->
+  (forall e, In e (sq_abs (rs_base st') (rs_q st')) -> In e (sq_abs (rs_base st) (rs_q st))) ->
+  (forall n, In n (rt_held (rs_sess st')) -> In n (rt_held (rs_sess st))) ->
+  rt_sinv tr st -> rt_sinv tr st'.
+Proof.
+  intros tr st st' U Sq Sh (F & C & Z0 & H & G). split; [|split; [exact C|split; [|split; [|exact G]]]].
+  - rewrite Forall_forall in *. intros e I. apply F. apply Sq. exact I.
+  - intros u Hu. apply Z0. lia.
+  - rewrite Forall_forall in *. intros n I. apply H. apply Sh. exact I.
+Qed.
+
+(* uids: distinct among the pending messages, and below rs_uid (from rt_rel) *)
+Lemma rt_rel_uids : forall tr k L, rt_rel tr k L ->
+  NoDup (map qn_uid L) /\ Forall (fun n => qn_uid n < k) L.
+Proof.
+  intros tr k L (_ & D & F & _). split; [exact D|].
+  eapply Forall_impl; [|exact F]. intros n (A & _). lia.
+Qed.
+
+Lemma rt_nodup_others : forall (l1 l2 : list sq_node) n,
+  NoDup (map qn_uid (l1 ++ n :: l2)) -> Forall (fun x => qn_uid x <> qn_uid n) (l1 ++ l2).
+Proof.
+  intros l1 l2 n D. rewrite map_app in D. cbn [map] in D. apply NoDup_remove_2 in D.
+  rewrite Forall_forall. intros x I E. apply D. rewrite <- map_app. rewrite <- E. apply in_map. exact I.
+Qed.
+
+(* releasing waiting messages *)
+Lemma rt_release_go_sinv : forall dq st ns ca tr extra rest,
+  rt_rel tr (rs_uid st) (extra ++ rt_nodes (rs_q st) ++ dq ++ rest) ->
+  Forall (fun n => qn_cnt n = -1) dq ->
+  rt_sinvg tr st (dq ++ rest) ->
+  match rt_release_go st ns ca dq with
+  | (st2, ca2, dq2, o) => rt_sinvg (tr ++ o) st2 (dq2 ++ rest)
+  end.
+Proof.
+  induction dq as [|n dq IH]; intros st ns ca tr extra rest R Hm S; cbn [rt_release_go].
+  - rewrite app_nil_r. exact S.
+  - destruct (ns <=? ca); [rewrite app_nil_r; exact S|].
+    inversion Hm as [|? ? Hn Hm']; subst.
+    set (c := qn_cnt n + 1). set (n' := rt_bump_node n c).
+    set (st1 := rt_enqueue st n' (qn_timeout n * 2 ^ c)).
+    destruct (rt_rel_uids _ _ _ R) as [D Ub].
+    assert (Dn : Forall (fun x => qn_uid x <> qn_uid n) ((extra ++ rt_nodes (rs_q st)) ++ dq ++ rest)).
+    { apply rt_nodup_others. rewrite <- app_assoc. exact D. }
+    assert (Un : qn_uid n < rs_uid st).
+    { rewrite Forall_forall in Ub. apply Ub. apply in_or_app. right. apply in_or_app. right. left. reflexivity. }
+    pose proof S as (F & C & Z0 & H & G). cbn [app] in H. inversion H as [|? ? Hn0 H']; subst.
+    assert (Sv : rt_sinvg tr st (dq ++ rest)) by (split; [exact F|split; [exact C|split; [exact Z0|split; [exact H'|exact G]]]]).
+    assert (Ov : Forall (fun x => qn_uid x <> qn_uid n') (rt_nodes (rs_q st) ++ dq ++ rest)).
+    { apply Forall_app in Dn. destruct Dn as [Dq Dr]. apply Forall_app in Dq. destruct Dq as [_ Dq].
+      apply Forall_app. split; assumption. }
+    assert (Ch : rt_chain (rt_tproj (qn_uid n') tr ++ [(rs_now st, c, qn_timeout n')])).
+    { cbn [n' rt_bump_node qn_uid qn_timeout]. rewrite Hn0. unfold c. rewrite Hn. cbn [app].
+      replace (-1 + 1) with 0 by lia. apply rt_ch_first. }
+    pose proof (rt_sinvg_tx tr st (dq ++ rest) n' c eq_refl Un Ch Ov Sv) as S1.
+    cbn [n' rt_bump_node qn_uid qn_sess qn_bytes qn_timeout] in S1. fold n' in S1. fold st1 in S1.
+    set (o1 := [RoTx (rs_now st) (qn_uid n) (qn_sess n) (qn_bytes n) c (qn_timeout n)]) in *.
+    destruct (rt_enqueue_nodes st n' (qn_timeout n * 2 ^ c)) as (P & U & N & Sx).
+    fold st1 in P, U, N, Sx.
+    assert (R1 : rt_rel (tr ++ o1) (rs_uid st1) (extra ++ rt_nodes (rs_q st1) ++ dq ++ rest)).
+    { rewrite U.
+      eapply rt_rel_perm with (ns := n' :: (extra ++ rt_nodes (rs_q st) ++ dq ++ rest)).
+      - apply Permutation_sym.
+        eapply Permutation_trans; [apply Permutation_app_head; apply Permutation_app_tail; exact P|].
+        cbn [app]. apply Permutation_sym. apply Permutation_middle.
+      - assert (Rn : rt_rel tr (rs_uid st) (n :: extra ++ rt_nodes (rs_q st) ++ dq ++ rest)).
+        { eapply rt_rel_perm; [|exact R]. apply Permutation_sym.
+          eapply Permutation_trans; [apply Permutation_middle|]. apply Permutation_app_head.
+          eapply Permutation_trans; [apply Permutation_middle|]. apply Permutation_refl. }
+        destruct Rn as (K & Dd & Ff & Cc). inversion Ff as [|? ? (A & B & M & O) F'']; subst.
+        apply rt_rel_bump; [reflexivity|lia|]. split; [exact K|split; [exact Dd|split; [exact Ff|exact Cc]]]. }
+    specialize (IH st1 ns (ca + 1) (tr ++ o1) extra rest R1 Hm' S1).
+    destruct (rt_release_go st1 ns (ca + 1) dq) as [[[st2 ca2] dq2] o2].
+    replace (tr ++ RoTx (rs_now st) (qn_uid n) (qn_sess n) (qn_bytes n) c (qn_timeout n) :: o2)
+      with ((tr ++ o1) ++ o2) by (unfold o1; rewrite <- app_assoc; reflexivity).
+    exact IH.
+Qed.
+
+Lemma rt_release_sinv : forall st s tr extra,
+  rt_invx tr st extra -> rt_sinv tr st ->
+  rt_sinv (tr ++ snd (rt_release st s)) (fst (rt_release st s)).
+Proof.
+  intros st s tr extra (R & Hm & SO) (F & C & Z0 & H & G). unfold rt_release.
+  destruct (rt_held_get_set s (rs_sess st)) as (rest & P1 & P2).
+  set (si := rt_sget s (rs_sess st)) in *.
+  assert (Hs : Forall (fun n => qn_cnt n = -1) (si_hold si)).
+  { eapply Permutation_Forall in Hm; [|exact P1]. apply Forall_app in Hm. tauto. }
+  assert (R0 : rt_rel tr (rs_uid st) (extra ++ rt_nodes (rs_q st) ++ si_hold si ++ rest)).
+  { eapply rt_rel_perm; [|exact R]. unfold rt_live. apply Permutation_app_head.
+    apply Permutation_app_head. exact P1. }
+  assert (S0 : rt_sinvg tr st (si_hold si ++ rest)).
+  { split; [exact F|split; [exact C|split; [exact Z0|split; [|exact G]]]].
+    eapply Permutation_Forall; [exact P1|exact H]. }
+  pose proof (rt_release_go_sinv (si_hold si) st (si_nstart si) (si_active si) tr extra rest R0 Hs S0) as X.
+  pose proof (rt_release_go_rel (si_hold si) st (si_nstart si) (si_active si) tr extra rest R0 Hs) as Y.
+  destruct (rt_sget_ok s _ SO) as [Oa On]. specialize (Y Oa).
+  destruct (rt_release_go st (si_nstart si) (si_active si) (si_hold si)) as [[[st1 ca] dq] o].
+  destruct X as (F1 & C1 & Z1 & H1 & G1). destruct Y as (_ & U1 & S1 & _). cbn [fst snd].
+  split; [exact F1|]. split; [exact C1|]. split; [exact Z1|]. split; [|exact G1].
+  cbn [rt_set_sess rs_sess]. rewrite S1.
+  eapply Permutation_Forall; [apply Permutation_sym; apply (P2 (rt_mk_sinfo (si_nstart si) ca dq))|exact H1].
+Qed.
+
+Lemma rt_sinv_set_same_hold : forall tr st s e,
+  si_hold e = si_hold (rt_sget s (rs_sess st)) ->
+  rt_sinv tr st -> rt_sinv tr (rt_set_sess st (rt_sset s e (rs_sess st))).
+Proof.
+  intros tr st s e He S. destruct (rt_held_get_set s (rs_sess st)) as (rest & P1 & P2).
+  apply (rt_sinv_sub tr st); [reflexivity|auto|  |exact S].
+  intros n I. cbn [rt_set_sess rs_sess] in I. eapply Permutation_in; [|exact I].
+  eapply Permutation_trans; [apply P2|]. rewrite He. apply Permutation_sym. exact P1.
+Qed.
+
+Lemma rt_free_slot_sinv : forall st s tr extra,
+  rt_invx tr st extra -> rt_sinv tr st ->
+  rt_sinv (tr ++ snd (rt_free_slot st s)) (fst (rt_free_slot st s)).
+Proof.
+  intros st s tr extra I S. unfold rt_free_slot. destruct (0 <? si_active (rt_sget s (rs_sess st))) eqn:E.
+  - set (e := rt_mk_sinfo _ _ _). set (st0 := rt_set_sess st _).
+    assert (I0 : rt_invx tr st0 extra).
+    { apply rt_invx_set_same_hold; [reflexivity| |exact I].
+      destruct I as (_ & _ & SO). destruct (rt_sget_ok s _ SO) as [Oa On]. unfold rt_sinfo_ok, e. cbn. lia. }
+    apply (rt_release_sinv st0 s tr extra I0). apply rt_sinv_set_same_hold; [reflexivity|exact S].
+  - cbn [fst snd]. rewrite app_nil_r. exact S.
+Qed.
+
+Lemma rt_free_slots_sinv : forall k st s tr,
+  rt_inv tr st -> rt_sinv tr st ->
+  rt_sinv (tr ++ snd (rt_free_slots k st s)) (fst (rt_free_slots k st s)).
+Proof.
+  induction k as [|k IH]; intros st s tr I S; cbn [rt_free_slots].
+  - cbn. rewrite app_nil_r. exact S.
+  - pose proof (rt_free_slot_sinv st s tr [] I S) as S1.
+    destruct (rt_free_slot_inv st s tr [] I) as [I1 _].
+    destruct (rt_free_slot st s) as [st1 o1]. cbn [fst snd] in *.
+    pose proof (IH st1 s _ I1 S1) as S2. destruct (rt_free_slots k st1 s) as [st2 o2].
+    cbn [fst snd] in *. rewrite app_assoc. exact S2.
+Qed.
+
+Lemma rt_proj_nil_tproj_nil : forall u o, rt_proj u o = [] -> rt_tproj u o = [].
+Proof.
+  intros u. induction o as [|a o IH]; intros H; [reflexivity|].
+  change (rt_proj u (a :: o)) with (rt_proj1 u a ++ rt_proj u o) in H.
+  apply app_eq_nil in H. destruct H as [H1 H2].
+  change (rt_tproj u (a :: o)) with (rt_tproj1 u a ++ rt_tproj u o). rewrite (IH H2), app_nil_r.
+  destruct a; cbn in *; try reflexivity. destruct (uid =? u); [discriminate|reflexivity].
+Qed.
+
+(* one iteration of the prepare loop: n was the head, due at d <= now *)
+Lemma rt_retransmit_sinv : forall st n tr d,
+  rt_invx tr st [n] -> rt_sinv tr st -> rt_entry_ok tr (d, n) -> d <= rs_now st ->
+  let (st', o) := rt_retransmit st n in rt_sinv (tr ++ o) st'.
+Proof.
+  intros st n tr d I S (l & t & E & D) Due. cbn [fst snd] in E, D.
+  pose proof I as (R & Hm & SO). cbn [app] in R.
+  destruct (rt_rel_uids _ _ _ R) as [Dd Ub].
+  assert (Oth : Forall (fun x => qn_uid x <> qn_uid n) (rt_live st)).
+  { apply (rt_nodup_others [] (rt_live st) n). exact Dd. }
+  assert (Un : qn_uid n < rs_uid st) by (inversion Ub; assumption).
+  pose proof R as (_ & _ & Fn & _). inversion Fn as [|? ? (A & B & M & _) _]; subst.
+  unfold rt_retransmit. destruct (qn_cnt n <? qn_max n) eqn:Ec.
+  - assert (Em : (qn_cnt n + 1) mod 256 = qn_cnt n + 1) by (apply Z.mod_small; lia).
+    rewrite Em. set (c := qn_cnt n + 1). set (n' := rt_bump_node n c).
+    assert (Ch : rt_chain (rt_tproj (qn_uid n') tr ++ [(rs_now st, c, qn_timeout n')])).
+    { cbn [n' rt_bump_node qn_uid qn_timeout]. rewrite E.
+      destruct S as (_ & C & _). specialize (C (qn_uid n)). rewrite E in C.
+      assert (0 <= qn_cnt n).
+      { destruct (Z_le_gt_dec 0 (qn_cnt n)); [assumption|]. exfalso.
+        (* a chain ends with a non-negative counter *)
+        clear - C g B. remember (l ++ [(t, qn_cnt n, qn_timeout n)]) as L eqn:EL.
+        destruct C as [|t1 T1|l1 t1 c1 T1 t2 C' Hc Hle].
+        - destruct l; discriminate.
+        - destruct l as [|a l]; [inversion EL; lia|destruct l; discriminate].
+        - apply app_inj_tail in EL. destruct EL as [_ X]. inversion X. lia. }
+      apply rt_ch_next; [exact C|assumption|lia]. }
+    pose proof (rt_sinv_tx tr st n' c eq_refl Un Ch Oth S) as S1.
+    cbn [n' rt_bump_node qn_uid qn_sess qn_bytes qn_timeout] in S1.
+    destruct (rt_sget_ok (qn_sess n) (rs_sess (rt_enqueue st (rt_bump_node n c) (qn_timeout n * 2 ^ c)))) as [Oa On].
+    { destruct (rt_enqueue_nodes st (rt_bump_node n c) (qn_timeout n * 2 ^ c)) as (_ & _ & _ & Sx). rewrite Sx. exact SO. }
+    set (si := rt_sget (qn_sess n) _) in *.
+    assert (Lt : (si_nstart si <=? (if 0 <? si_active si then si_active si - 1 else si_active si)) = false).
+    { destruct (0 <? si_active si) eqn:E0; lia. }
+    rewrite Lt. apply rt_sinv_set_same_hold; [reflexivity|exact S1].
+  - pose proof (rt_free_slot_sinv st (qn_sess n) tr [n] I S) as S1.
+    destruct (rt_free_slot_inv st (qn_sess n) tr [n] I) as [_ N1].
+    destruct (rt_free_slot st (qn_sess n)) as [st1 o1] eqn:Ef. cbn [fst snd] in *.
+    rewrite app_assoc. destruct S1 as (F1 & C1 & Z1 & H1 & G1).
+    assert (Tq : rt_tproj (qn_uid n) (tr ++ o1) = l ++ [(t, qn_cnt n, qn_timeout n)]).
+    { (* the released messages are others *)
+      rewrite rt_tproj_app, E.
+      assert (X : rt_tproj (qn_uid n) o1 = []).
+      { destruct (rt_free_slot_inv st (qn_sess n) tr [n] I) as [(R1 & _ & _) _]. rewrite Ef in R1. cbn [fst snd app] in R1.
+        destruct R1 as (_ & _ & Fn1 & _). inversion Fn1 as [|? ? (_ & _ & _ & O1) _]; subst.
+        destruct R as (_ & _ & Fn0 & _). inversion Fn0 as [|? ? (_ & _ & _ & O0) _]; subst.
+        (* compare the tag projections: unchanged, hence no RoTx of this uid in o1 *)
+        unfold rt_open in O0, O1. rewrite rt_proj_app, O0 in O1.
+        assert (Pn : rt_proj (qn_uid n) o1 = []).
+        { destruct (rt_proj (qn_uid n) o1); [reflexivity|].
+          apply (f_equal (@length _)) in O1. rewrite app_length, repeat_length in O1. cbn in O1. lia. }
+        apply rt_proj_nil_tproj_nil. exact Pn. }
+      rewrite X, app_nil_r. reflexivity. }
+    split; [|split; [|split; [|split]]].
+    + eapply Forall_impl; [|exact F1]. intros e He. apply rt_entry_ok_other; [reflexivity|exact He].
+    + intros u. rewrite rt_tproj_app. cbn. rewrite app_nil_r. apply C1.
+    + intros u Hu. rewrite rt_tproj_app. cbn. rewrite app_nil_r. apply Z1. exact Hu.
+    + eapply Forall_impl; [|exact H1]. intros x Hx. rewrite rt_tproj_app. cbn. rewrite app_nil_r. exact Hx.
+    + apply rt_giveups_snoc; [exact G1|]. cbn. intros _.
+      exists l, t, (qn_timeout n). split; [exact Tq|lia].
+Qed.
+
+Lemma rt_due_head : forall st, rt_due st = true ->
+  exists t0 n0 rest, rs_q st = (t0, n0) :: rest /\ rs_base st + t0 <= rs_now st.
+Proof.
+  intros st D. unfold rt_due in D. destruct (rs_q st) as [|[t0 n0] rest]; [discriminate|].
+  exists t0, n0, rest. split; [reflexivity|lia].
+Qed.
+
+Lemma rt_fire_sinv : forall fuel st tr,
+  rt_inv tr st -> rt_sinv tr st ->
+  let (st', o) := rt_fire fuel st in rt_sinv (tr ++ o) st'.
+Proof.
+  induction fuel as [|f IH]; intros st tr R S; cbn [rt_fire].
+  - apply rt_sinv_quiet; [| |exact S]; [intros u|]; destruct (rt_due st); try reflexivity; repeat constructor.
+  - destruct (rt_due st) eqn:Du; [|rewrite app_nil_r; exact S].
     destruct (rt_due_head st Du) as (t0 & n0 & rest & Q & Le).
     rewrite Q. cbn [sq_pop].
-    destruct S as (F & C & Z0). rewrite Q in F. cbn [sq_abs] in F. inversion F as [|? ? He F']; subst.
-    assert (R' : rt_rel tr (rs_uid (rt_set_q st (sq_bump t0 rest))) (n0 :: rt_nodes (rs_q (rt_set_q st (sq_bump t0 rest))))).
-    { cbn [rt_set_q rs_uid rs_q]. rewrite rt_nodes_bump. rewrite Q in R. exact R. }
+    assert (I0 : rt_invx tr (rt_set_q st (sq_bump t0 rest)) [n0]).
+    { destruct R as (R & H & SO). split; [|split; assumption].
+      cbn [rt_set_q rs_uid app]. unfold rt_live in *. cbn [rt_set_q rs_q rs_sess app] in *.
+      rewrite rt_nodes_bump. rewrite Q in R. exact R. }
+    pose proof S as (F & C & Z0 & H & G). rewrite Q in F. cbn [sq_abs] in F. inversion F as [|? ? He F']; subst.
     assert (S' : rt_sinv tr (rt_set_q st (sq_bump t0 rest))).
-    { split; [|split; [exact C|exact Z0]]. cbn [rt_set_q rs_base rs_q]. rewrite sq_abs_bump. exact F'. }
-    pose proof (rt_retransmit_sinv (rt_set_q st (sq_bump t0 rest)) n0 tr (rs_base st + t0) R' S' He Le) as H1.
-    pose proof (rt_retransmit_rel (rt_set_q st (sq_bump t0 rest)) n0 tr R') as H2.
-    pose proof (rt_retransmit_ginv (rt_set_q st (sq_bump t0 rest)) n0 tr (rs_base st + t0) He Le G) as H3.
+    { apply (rt_sinv_sub tr st); [reflexivity| |auto|exact S].
+      intros e I. cbn [rt_set_q rs_base rs_q] in I. rewrite sq_abs_bump in I. rewrite Q. cbn [sq_abs]. right. exact I. }
+    pose proof (rt_retransmit_sinv (rt_set_q st (sq_bump t0 rest)) n0 tr (rs_base st + t0) I0 S' He Le) as H1.
+    pose proof (rt_retransmit_rel (rt_set_q st (sq_bump t0 rest)) n0 tr I0) as H2.
     destruct (rt_retransmit (rt_set_q st (sq_bump t0 rest)) n0) as [st1 o1]. destruct H2 as [R1 _].
-    cbn [snd] in H3. specialize (IH st1 (tr ++ o1) R1 H1 H3).
-    destruct (rt_fire f st1) as [st2 o2]. cbn [snd] in *. rewrite app_assoc. exact IH.
+    specialize (IH st1 (tr ++ o1) R1 H1). destruct (rt_fire f st1) as [st2 o2].
+    rewrite app_assoc. exact IH.
 Qed.
 
-Lemma rt_step_ginv : forall st ev tr,
-  rt_ev_ok ev -> rt_rel tr (rs_uid st) (rt_nodes (rs_q st)) -> rt_sinv tr st -> rt_giveups_ok tr ->
-  rt_giveups_ok (tr ++ snd (rt_step st ev)).
+Lemma rt_fire_all_sinv : forall st tr, rt_inv tr st -> rt_sinv tr st ->
+  rt_sinv (tr ++ snd (rt_fire_all st)) (fst (rt_fire_all st)).
 Proof.
-  intros st ev tr Hev R S G. destruct ev as [dt|s m b cfg r| |s m|s m|s m tok|s reason|s m|tmo|]; cbn [rt_step].
-  - cbn. rewrite app_nil_r. exact G.
-  - unfold rt_send. cbn [snd]. apply rt_giveups_app; [exact G|]. repeat constructor.
-  - unfold rt_tick, rt_fire_all.
-    pose proof (rt_fire_ginv (rt_budget (rs_q st)) st tr R S G) as H.
-    destruct (rt_fire (rt_budget (rs_q st)) st) as [st1 o]. destruct (rt_wait st1) as [w hd].
-    cbn [snd] in *. rewrite app_assoc. apply rt_giveups_app; [exact H|]. repeat constructor.
-  - unfold rt_ack, rt_fire_all. destruct (sq_remove (rs_q st) s m) as [[[t n] q']|] eqn:Rm.
-    + destruct (rt_nodes_remove _ _ _ _ _ _ Rm) as [P _].
-      destruct (sq_remove_others _ (rs_base st) _ _ _ _ _ Rm) as (l1 & l2 & d & E1 & E2 & _ & _).
+  intros st tr I S. unfold rt_fire_all. pose proof (rt_fire_sinv (rt_budget_all st) st tr I S) as H.
+  destruct (rt_fire (rt_budget_all st) st). exact H.
+Qed.
+
+(* removing entries from the queue *)
+Lemma rt_sinv_set_q_sub : forall tr st q',
+  (forall e, In e (sq_abs (rs_base st) q') -> In e (sq_abs (rs_base st) (rs_q st))) ->
+  rt_sinv tr st -> rt_sinv tr (rt_set_q st q').
+Proof. intros tr st q' Sub S. apply (rt_sinv_sub tr st); [reflexivity|exact Sub|auto|exact S]. Qed.
+
+Lemma rt_removed_sub : forall st s m t n q', sq_remove (rs_q st) s m = Some ((t, n), q') ->
+  forall e, In e (sq_abs (rs_base st) q') -> In e (sq_abs (rs_base st) (rs_q st)).
+Proof.
+  intros st s m t n q' Rm e I.
+  destruct (sq_remove_others _ (rs_base st) _ _ _ _ _ Rm) as (l1 & l2 & d & E1 & E2 & _ & _).
+  rewrite E2 in I. rewrite E1. apply in_app_or in I. apply in_or_app. destruct I; [left|right; right]; assumption.
+Qed.
+
+Lemma rt_step_sinv : forall st ev tr,
+  rt_ev_ok ev -> rt_inv tr st -> rt_sinv tr st ->
+  let (st', o) := rt_step st ev in rt_sinv (tr ++ o) st'.
+Proof.
+  intros st ev tr Hev R S. destruct ev as [dt|s m b cfg r| |s m|s m|s m tok|s reason|s m|tmo|]; cbn [rt_step].
+  - rewrite app_nil_r. apply (rt_sinv_sub tr st); auto.
+  - unfold rt_send. set (T := fp_calc_timeout _ _ _ _ _).
+    pose proof R as (Rr & Hm & SO). cbn [app] in Rr.
+    destruct (rt_rel_uids _ _ _ Rr) as [Dd Ub].
+    destruct (rt_held_get_set s (rs_sess st)) as (rest & P1 & P2).
+    set (si := rt_sget s (rs_sess st)) in *.
+    pose proof S as (F & C & Z0 & H & G).
+    destruct (si_nstart si <=? si_active si).
+    + destruct (existsb (fun n => qn_mid n =? m) (si_hold si)).
+      * apply rt_sinv_quiet; [intros u; reflexivity|repeat constructor|exact S].
+      * set (n := sq_mk_node (rs_uid st) s m (-1) T (rc_max cfg) b).
+        set (e := rt_mk_sinfo (si_nstart si) (si_active si) (si_hold si ++ [n])).
+        apply rt_sinv_quiet; [intros u; reflexivity|repeat constructor|].
+        split; [exact F|split; [exact C|split; [|split; [|exact G]]]].
+        -- intros u Hu. cbn [rs_uid] in Hu. apply Z0. lia.
+        -- cbn [rs_sess]. eapply Permutation_Forall; [apply Permutation_sym; apply (P2 e)|]. cbn [e si_hold].
+           eapply Permutation_Forall in H; [|exact P1]. apply Forall_app in H. destruct H as [Hs Hr].
+           apply Forall_app. split; [|exact Hr]. apply Forall_app. split; [exact Hs|].
+           constructor; [|constructor]. cbn [n qn_uid]. apply Z0. lia.
+    + set (n := sq_mk_node (rs_uid st) s m 0 T (rc_max cfg) b).
+      set (e := rt_mk_sinfo (si_nstart si) (si_active si + 1) (si_hold si)).
+      set (st1 := rt_mk_state (rs_now st) (rs_base st) (rs_q st) (rs_uid st + 1) (rt_sset s e (rs_sess st))).
+      assert (S1 : rt_sinv tr st1).
+      { split; [exact F|split; [exact C|split; [|split; [|exact G]]]].
+        - intros u Hu. cbn [st1 rs_uid] in Hu. apply Z0. lia.
+        - cbn [st1 rs_sess]. eapply Permutation_Forall; [apply Permutation_sym; apply (P2 e)|]. cbn [e si_hold].
+          eapply Permutation_Forall; [exact P1|exact H]. }
+      assert (Ch : rt_chain (rt_tproj (qn_uid n) tr ++ [(rs_now st1, 0, qn_timeout n)])).
+      { cbn [n qn_uid qn_timeout]. rewrite (Z0 (rs_uid st)) by lia. apply rt_ch_first. }
+      assert (Oth : Forall (fun x => qn_uid x <> qn_uid n) (rt_live st1)).
+      { unfold rt_live. cbn [st1 rs_q rs_sess n qn_uid]. rewrite Forall_forall in *. intros x I.
+        assert (Ix : In x (rt_live st)).
+        { unfold rt_live. apply in_app_or in I. apply in_or_app. destruct I as [I|I]; [left; exact I|right].
+          eapply Permutation_in; [|exact I]. eapply Permutation_trans; [apply (P2 e)|]. cbn [e si_hold].
+          apply Permutation_sym. exact P1. }
+        specialize (Ub x Ix). lia. }
+      pose proof (rt_sinv_tx tr st1 n 0 eq_refl ltac:(cbn [n st1 qn_uid rs_uid]; lia) Ch Oth S1) as S2.
+      cbn [n qn_uid qn_sess qn_bytes qn_timeout st1 rs_now] in S2. rewrite Z.pow_0_r, Z.mul_1_r in S2.
+      replace (tr ++ [RoTx (rs_now st) (rs_uid st) s b 0 T; RoSent m])
+        with ((tr ++ [RoTx (rs_now st) (rs_uid st) s b 0 T]) ++ [RoSent m]) by (rewrite <- app_assoc; reflexivity).
+      apply rt_sinv_quiet; [intros u; reflexivity|repeat constructor|exact S2].
+  - unfold rt_tick. pose proof (rt_fire_all_sinv st tr R S) as H.
+    destruct (rt_fire_all st) as [st1 o]. cbn [fst snd] in H. destruct (rt_wait st1) as [w hd].
+    rewrite app_assoc. apply rt_sinv_quiet; [intros u; reflexivity|repeat constructor|exact H].
+  - unfold rt_ack. destruct (sq_remove (rs_q st) s m) as [[[t n] q']|] eqn:Rm.
+    + pose proof (rt_inv_removed tr st s m t n q' Rm R) as I0.
       set (o0 := [RoAcked (rs_now st) (qn_uid n)]).
-      assert (S1 : rt_sinv (tr ++ o0) (rt_set_q st q')).
-      { apply rt_sinv_no_tx; [intros u; reflexivity|]. apply rt_sinv_sub; [exact S|].
-        intros e I. rewrite E2 in I. rewrite E1. apply in_app_or in I. apply in_or_app.
-        destruct I; [left|right; right]; assumption. }
-      assert (R1 : rt_rel (tr ++ o0) (rs_uid st) (rt_nodes q')).
-      { eapply rt_rel_drop with (n := n) (tag := PAcked); [intros _; exact I| | |].
+      assert (I1 : rt_inv (tr ++ o0) (rt_set_q st q')).
+      { eapply rt_invx_drop with (n := n) (tag := PAcked); [intros _; exact I| | |exact I0].
         - cbn. rewrite Z.eqb_refl. reflexivity.
-        - intros u Hu. cbn. assert (X : (qn_uid n =? u) = false) by lia. rewrite X. reflexivity.
-        - eapply rt_rel_perm; [exact P|exact R]. }
-      assert (G1 : rt_giveups_ok (tr ++ o0)) by (apply rt_giveups_app; [exact G|repeat constructor]).
-      pose proof (rt_fire_ginv (rt_budget (rs_q (rt_set_q st q'))) (rt_set_q st q') _ R1 S1 G1) as H.
-      destruct (rt_fire _ (rt_set_q st q')) as [st1 o]. cbn [snd] in *. rewrite <- app_assoc in H. exact H.
-    + apply (rt_fire_ginv (rt_budget (rs_q st)) st tr R S G).
-  - unfold rt_rst, rt_fire_all. destruct (sq_remove (rs_q st) s m) as [[[t n] q']|] eqn:Rm.
-    + destruct (rt_nodes_remove _ _ _ _ _ _ Rm) as [P _].
-      destruct (sq_remove_others _ (rs_base st) _ _ _ _ _ Rm) as (l1 & l2 & d & E1 & E2 & _ & _).
+        - intros u Hu. cbn. assert (X : (qn_uid n =? u) = false) by lia. rewrite X. reflexivity. }
+      assert (S1 : rt_sinv (tr ++ o0) (rt_set_q st q')).
+      { apply rt_sinv_quiet; [intros u; reflexivity|repeat constructor|].
+        apply rt_sinv_set_q_sub; [eapply rt_removed_sub; eauto|exact S]. }
+      pose proof (rt_free_slot_sinv (rt_set_q st q') s _ [] I1 S1) as S2.
+      destruct (rt_free_slot_inv (rt_set_q st q') s _ [] I1) as [I2 _].
+      destruct (rt_free_slot (rt_set_q st q') s) as [st1 o1]. cbn [fst snd] in *.
+      pose proof (rt_fire_all_sinv st1 _ I2 S2) as S3. destruct (rt_fire_all st1) as [st2 o2]. cbn [fst snd] in S3.
+      replace (tr ++ RoAcked (rs_now st) (qn_uid n) :: o1 ++ o2) with (((tr ++ o0) ++ o1) ++ o2)
+        by (unfold o0; repeat rewrite <- app_assoc; reflexivity).
+      exact S3.
+    + pose proof (rt_fire_all_sinv st tr R S) as H. destruct (rt_fire_all st). exact H.
+  - unfold rt_rst. destruct (sq_remove (rs_q st) s m) as [[[t n] q']|] eqn:Rm.
+    + pose proof (rt_inv_removed tr st s m t n q' Rm R) as I0.
+      assert (S0 : rt_sinv tr (rt_set_q st q')).
+      { apply rt_sinv_set_q_sub; [eapply rt_removed_sub; eauto|exact S]. }
+      pose proof (rt_free_slot_sinv (rt_set_q st q') s tr [n] I0 S0) as S1.
+      destruct (rt_free_slot_inv (rt_set_q st q') s tr [n] I0) as [I1 _].
+      destruct (rt_free_slot (rt_set_q st q') s) as [st1 o1]. cbn [fst snd] in *.
       set (o0 := [RoNack (rs_now st) (qn_uid n) (qn_sess n) rt_NACK_RST (qn_mid n) (qn_cnt n) (qn_max n)]).
-      assert (S1 : rt_sinv (tr ++ o0) (rt_set_q st q')).
-      { apply rt_sinv_no_tx; [intros u; reflexivity|]. apply rt_sinv_sub; [exact S|].
-        intros e I. rewrite E2 in I. rewrite E1. apply in_app_or in I. apply in_or_app.
-        destruct I; [left|right; right]; assumption. }
-      assert (R1 : rt_rel (tr ++ o0) (rs_uid st) (rt_nodes q')).
-      { eapply rt_rel_drop with (n := n) (tag := PNack rt_NACK_RST (qn_cnt n) (qn_max n));
-          [intros (A & B & M & O); cbn; repeat split; try lia; intros X; discriminate| | |].
+      assert (I2 : rt_inv ((tr ++ o1) ++ o0) st1).
+      { eapply rt_invx_drop with (n := n) (tag := PNack rt_NACK_RST (qn_cnt n) (qn_max n)); [| | |exact I1].
+        - intros (A & B & M & O). cbn. repeat split; try lia; intros X; discriminate.
         - cbn. rewrite Z.eqb_refl. reflexivity.
-        - intros u Hu. cbn. assert (X : (qn_uid n =? u) = false) by lia. rewrite X. reflexivity.
-        - eapply rt_rel_perm; [exact P|exact R]. }
-      assert (G1 : rt_giveups_ok (tr ++ o0)).
-      { apply rt_giveups_app; [exact G|]. constructor; [|constructor]. unfold rt_NACK_RST, rt_NACK_TOO_MANY_RETRIES. lia. }
-      pose proof (rt_fire_ginv (rt_budget (rs_q (rt_set_q st q'))) (rt_set_q st q') _ R1 S1 G1) as H.
-      destruct (rt_fire _ (rt_set_q st q')) as [st1 o]. cbn [snd] in *. rewrite <- app_assoc in H. exact H.
+        - intros u Hu. cbn. assert (X : (qn_uid n =? u) = false) by lia. rewrite X. reflexivity. }
+      assert (S2 : rt_sinv ((tr ++ o1) ++ o0) st1).
+      { apply rt_sinv_quiet; [intros u; reflexivity| |exact S1].
+        constructor; [|constructor]. unfold rt_NACK_RST, rt_NACK_TOO_MANY_RETRIES. lia. }
+      pose proof (rt_fire_all_sinv st1 _ I2 S2) as S3. destruct (rt_fire_all st1) as [st2 o2]. cbn [fst snd] in S3.
+      replace (tr ++ o1 ++ RoNack (rs_now st) (qn_uid n) (qn_sess n) rt_NACK_RST (qn_mid n) (qn_cnt n) (qn_max n) :: o2)
+        with (((tr ++ o1) ++ o0) ++ o2) by (unfold o0; repeat rewrite <- app_assoc; reflexivity).
+      exact S3.
     + set (o0 := [RoNackNoPdu (rs_now st) s rt_NACK_RST m]).
-      assert (S1 : rt_sinv (tr ++ o0) st) by (apply rt_sinv_no_tx; [intros u; reflexivity|exact S]).
-      assert (R1 : rt_rel (tr ++ o0) (rs_uid st) (rt_nodes (rs_q st)))
-        by (apply rt_rel_neutral; [intros u; reflexivity|exact R]).
-      assert (G1 : rt_giveups_ok (tr ++ o0)) by (apply rt_giveups_app; [exact G|repeat constructor]).
-      pose proof (rt_fire_ginv (rt_budget (rs_q st)) st _ R1 S1 G1) as H.
-      destruct (rt_fire (rt_budget (rs_q st)) st) as [st1 o]. cbn [snd] in *. rewrite <- app_assoc in H. exact H.
-  - unfold rt_non, rt_fire_all.
+      assert (S1 : rt_sinv (tr ++ o0) st) by (apply rt_sinv_quiet; [intros u; reflexivity|repeat constructor|exact S]).
+      assert (R1 : rt_inv (tr ++ o0) st) by (apply rt_invx_neutral; [intros u; reflexivity|exact R]).
+      pose proof (rt_fire_all_sinv st _ R1 S1) as H. destruct (rt_fire_all st) as [st1 o]. cbn [fst snd] in H.
+      rewrite <- app_assoc in H. exact H.
+  - unfold rt_non.
     pose proof (rt_nodes_cancel (rt_tok_match s tok) (rs_q st)) as P.
     pose proof (sq_abs_cancel (rt_tok_match s tok) (rs_q st) (rs_base st)) as [A _].
     destruct (sq_cancel (rt_tok_match s tok) (rs_q st)) as [rm q']. cbn [fst snd] in *.
     set (o0 := map (fun n => RoAcked (rs_now st) (qn_uid n)) rm).
+    assert (I1 : rt_inv (tr ++ o0) (rt_set_q st q')).
+    { destruct R as (Rr & H & SO). split; [|split; assumption]. cbn [app rt_set_q rs_uid].
+      unfold rt_live in *. cbn [rt_set_q rs_q rs_sess app] in *.
+      apply rt_rel_drop_acked. eapply rt_rel_perm; [|exact Rr].
+      rewrite app_assoc. apply Permutation_app_tail. exact P. }
     assert (S1 : rt_sinv (tr ++ o0) (rt_set_q st q')).
-    { apply rt_sinv_no_tx; [apply rt_no_tx_acked|]. apply rt_sinv_sub; [exact S|].
-      intros e I. rewrite A in I. apply filter_In in I. tauto. }
-    assert (R1 : rt_rel (tr ++ o0) (rs_uid st) (rt_nodes q')).
-    { apply rt_rel_drop_acked. eapply rt_rel_perm; [exact P|exact R]. }
-    assert (G1 : rt_giveups_ok (tr ++ o0)) by (apply rt_giveups_app; [exact G|apply rt_no_giveup_acked]).
-    pose proof (rt_fire_ginv (rt_budget (rs_q (rt_set_q st q'))) (rt_set_q st q') _ R1 S1 G1) as H.
-    destruct (rt_fire _ (rt_set_q st q')) as [st1 o]. cbn [snd] in *. rewrite <- app_assoc in H. exact H.
-  - unfold rt_disconnect. destruct (sq_cancel (rt_sess_match s) (rs_q st)) as [rm q']. cbn [snd].
-    apply rt_giveups_app; [exact G|]. destruct rm as [|n rm]; [repeat constructor|].
-    apply rt_no_giveup_nacked. cbn in Hev. tauto.
-  - unfold rt_delete. destruct (sq_remove (rs_q st) s m) as [[[t n] q']|]; cbn [snd].
-    + apply rt_giveups_app; [exact G|repeat constructor].
-    + rewrite app_nil_r. exact G.
-  - unfold rt_io_process, rt_fire_all.
-    pose proof (rt_fire_sinv (rt_budget (rs_q st)) st tr R S) as H1.
-    pose proof (rt_fire_rel (rt_budget (rs_q st)) st tr R) as H1r.
-    pose proof (rt_fire_ginv (rt_budget (rs_q st)) st tr R S G) as H1g.
-    destruct (rt_fire (rt_budget (rs_q st)) st) as [st1 o1]. destruct H1r as [R1 _]. cbn [snd] in H1g.
+    { apply rt_sinv_quiet; [apply rt_no_tx_acked|apply rt_no_giveup_acked|].
+      apply rt_sinv_set_q_sub; [|exact S]. intros e I. rewrite A in I. apply filter_In in I. tauto. }
+    pose proof (rt_free_slots_sinv (length rm) (rt_set_q st q') s _ I1 S1) as S2.
+    destruct (rt_free_slots_inv (length rm) (rt_set_q st q') s _ [] I1) as [I2 _].
+    destruct (rt_free_slots (length rm) (rt_set_q st q') s) as [st1 o1]. cbn [fst snd] in *.
+    pose proof (rt_fire_all_sinv st1 _ I2 S2) as S3. destruct (rt_fire_all st1) as [st2 o2]. cbn [fst snd] in S3.
+    replace (tr ++ o0 ++ o1 ++ o2) with (((tr ++ o0) ++ o1) ++ o2) by (repeat rewrite <- app_assoc; reflexivity).
+    exact S3.
+  - unfold rt_disconnect.
+    pose proof (sq_abs_cancel (rt_sess_match s) (rs_q st) (rs_base st)) as [A _].
+    destruct (sq_cancel (rt_sess_match s) (rs_q st)) as [rm q']. cbn [fst snd] in *.
+    destruct (rt_held_get_set s (rs_sess st)) as (rest & P1 & P2).
+    set (si := rt_sget s (rs_sess st)) in *. set (e := rt_mk_sinfo (si_nstart si) 0 []).
+    apply rt_sinv_quiet.
+    + destruct (si_hold si ++ rm); [intros u; reflexivity|apply rt_no_tx_nacked].
+    + destruct (si_hold si ++ rm) eqn:Eg; [repeat constructor|]. rewrite <- Eg.
+      apply rt_no_giveup_nacked. cbn in Hev. tauto.
+    + apply (rt_sinv_sub tr st); [reflexivity| | |exact S].
+      * intros x I. cbn [rt_set_sess rt_set_q rs_base rs_q] in I. rewrite A in I. apply filter_In in I. tauto.
+      * intros n I. cbn [rt_set_sess rs_sess] in I.
+        eapply Permutation_in in I; [|apply (P2 e)]. cbn [e si_hold app] in I.
+        eapply Permutation_in; [apply Permutation_sym; exact P1|]. apply in_or_app. right. exact I.
+  - unfold rt_delete. destruct (sq_remove (rs_q st) s m) as [[[t n] q']|] eqn:Rm.
+    + apply rt_sinv_quiet; [intros u; reflexivity|repeat constructor|].
+      apply rt_sinv_set_q_sub; [eapply rt_removed_sub; eauto|exact S].
+    + rewrite app_nil_r. exact S.
+  - unfold rt_io_process.
+    pose proof (rt_fire_all_sinv st tr R S) as S1. destruct (rt_fire_all_rel st tr R) as [R1 _].
+    destruct (rt_fire_all st) as [st1 o1]. cbn [fst snd] in *.
     destruct (rt_wait st1) as [w hd]. set (et := rt_epoll_timeout w tmo).
-    set (st2 := rt_mk_state _ (rs_base st1) (rs_q st1) (rs_uid st1)).
+    set (st2 := rt_set_now st1 _).
     assert (S2 : rt_sinv ((tr ++ o1) ++ [RoEpoll (rs_now st1) et]) st2).
-    { apply rt_sinv_no_tx; [intros u; reflexivity|]. destruct H1 as (F & C & Z0).
-      split; [exact F|split; [exact C|exact Z0]]. }
-    assert (R2 : rt_rel ((tr ++ o1) ++ [RoEpoll (rs_now st1) et]) (rs_uid st2) (rt_nodes (rs_q st2)))
-      by (apply rt_rel_neutral; [intros u; reflexivity|exact R1]).
-    assert (G2 : rt_giveups_ok ((tr ++ o1) ++ [RoEpoll (rs_now st1) et]))
-      by (apply rt_giveups_app; [exact H1g|repeat constructor]).
-    pose proof (rt_fire_ginv (rt_budget (rs_q st2)) st2 _ R2 S2 G2) as H3.
-    destruct (rt_fire (rt_budget (rs_q st2)) st2) as [st3 o3]. cbn [snd] in *.
+    { apply rt_sinv_quiet; [intros u; reflexivity|repeat constructor|]. apply (rt_sinv_sub _ st1); auto. }
+    assert (R2 : rt_inv ((tr ++ o1) ++ [RoEpoll (rs_now st1) et]) st2).
+    { apply rt_invx_neutral; [intros u; reflexivity|].
+      eapply rt_invx_same; [| | |exact R1]; reflexivity || apply Permutation_refl. }
+    pose proof (rt_fire_all_sinv st2 _ R2 S2) as S3. destruct (rt_fire_all st2) as [st3 o3]. cbn [fst snd] in S3.
     replace (tr ++ o1 ++ RoEpoll (rs_now st1) et :: o3 ++ [RoIoRet (rs_now st3) (rs_now st3 - rs_now st)])
       with ((((tr ++ o1) ++ [RoEpoll (rs_now st1) et]) ++ o3) ++ [RoIoRet (rs_now st3) (rs_now st3 - rs_now st)])
       by (repeat rewrite <- app_assoc; reflexivity).
-    apply rt_giveups_app; [exact H3|repeat constructor].
-  - cbn [snd]. apply rt_giveups_app; [exact G|repeat constructor].
+    apply rt_sinv_quiet; [intros u; reflexivity|repeat constructor|exact S3].
+  - apply rt_sinv_quiet; [intros u; reflexivity|repeat constructor|exact S].
 Qed.
 
-Lemma rt_run_ginv : forall evs st tr,
-  Forall rt_ev_ok evs -> rt_rel tr (rs_uid st) (rt_nodes (rs_q st)) -> rt_sinv tr st ->
-  rt_giveups_ok tr -> rt_giveups_ok (tr ++ snd (rt_run st evs)).
+Lemma rt_run_sinv : forall evs st tr,
+  Forall rt_ev_ok evs -> rt_inv tr st -> rt_sinv tr st ->
+  let (st', o) := rt_run st evs in
+  rt_sinv (tr ++ o) st' /\ rt_inv (tr ++ o) st'.
 Proof.
-  induction evs as [|ev rest IH]; intros st tr F R S G; cbn [rt_run].
-  - cbn. rewrite app_nil_r. exact G.
+  induction evs as [|ev rest IH]; intros st tr F R S; cbn [rt_run].
+  - rewrite app_nil_r. auto.
   - inversion F; subst. pose proof (rt_step_sinv st ev tr H1 R S) as HS.
-    pose proof (rt_step_rel st ev tr H1 R) as HR. pose proof (rt_step_ginv st ev tr H1 R S G) as HG.
-    destruct (rt_step st ev) as [st1 o1]. cbn [snd] in HG. specialize (IH st1 (tr ++ o1) H2 HR HS HG).
-    destruct (rt_run st1 rest) as [st2 o2]. cbn [snd] in *. rewrite app_assoc. exact IH.
+    pose proof (rt_step_rel st ev tr H1 R) as HR.
+    destruct (rt_step st ev) as [st1 o1]. specialize (IH st1 (tr ++ o1) H2 HR HS).
+    destruct (rt_run st1 rest) as [st2 o2]. rewrite app_assoc. exact IH.
 Qed.
 
-Theorem rt_giveup_not_early : forall t0 evs tr1 t u s m c mx tr2,
-  Forall rt_ev_ok evs ->
-  snd (rt_run (rt_init t0) evs) = tr1 ++ RoNack t u s rt_NACK_TOO_MANY_RETRIES m c mx :: tr2 ->
+Lemma rt_sinv_init : forall t0 nst, rt_sinv [] (rt_init t0 nst).
+Proof.
+  intros. unfold rt_sinv, rt_init. cbn [rs_q rs_base rs_uid rs_sess sq_abs]. rewrite rt_held_init.
+  split; [constructor|]. split; [intros; constructor|]. split; [intros; reflexivity|].
+  split; [constructor|exact rt_giveups_nil].
+Qed.
+
+(* ------------------------------------------------------------------ reading a chain *)
+Lemma rt_chain_last : forall l t c T, rt_chain (l ++ [(t, c, T)]) -> c = Z.of_nat (length l).
+Proof.
+  intros l t c T H. remember (l ++ [(t, c, T)]) as L eqn:E. revert l t c T E.
+  induction H as [|t1 T1|l1 t1 c1 T1 t2 H IH Hc Hle]; intros l t c T E.
+  - destruct l; discriminate.
+  - destruct l as [|a l]; [inversion E; reflexivity|]. destruct l; discriminate.
+  - apply app_inj_tail in E. destruct E as [E1 E2]. inversion E2; subst.
+    rewrite app_length. cbn [length]. rewrite (IH _ _ _ _ eq_refl). lia.
+Qed.
+
+Lemma rt_chain_nth : forall L, rt_chain L ->
+  forall i t c T, nth_error L i = Some (t, c, T) ->
+    c = Z.of_nat i /\
+    forall t' c' T', nth_error L (S i) = Some (t', c', T') -> T' = T /\ t + T * 2 ^ c <= t'.
+Proof.
+  intros L H. induction H as [|t1 T1|l1 t1 c1 T1 t2 H IH Hc Hle]; intros i t c T N.
+  - destruct i; discriminate.
+  - destruct i as [|i]; [|destruct i; discriminate]. cbn in N. inversion N; subst.
+    split; [reflexivity|]. intros t' c' T' N'. discriminate.
+  - set (L1 := l1 ++ [(t1, c1, T1)]) in *.
+    assert (Len : length L1 = S (length l1)) by (unfold L1; rewrite app_length; cbn; lia).
+    pose proof (rt_chain_last l1 t1 c1 T1 H) as Ec.
+    destruct (Nat.lt_ge_cases i (length L1)) as [Lt|Ge].
+    + rewrite nth_error_app1 in N by exact Lt. destruct (IH i t c T N) as [Ei Nx].
+      split; [exact Ei|]. intros t' c' T' N'.
+      destruct (Nat.lt_ge_cases (S i) (length L1)) as [Lt2|Ge2].
+      * rewrite nth_error_app1 in N' by exact Lt2. apply (Nx t' c' T' N').
+      * assert (Ei2 : i = length l1) by lia. subst i.
+        rewrite nth_error_app2 in N' by lia. replace (S (length l1) - length L1)%nat with 0%nat in N' by lia.
+        cbn in N'. inversion N'; subst.
+        unfold L1 in N. rewrite nth_error_app2 in N by lia. rewrite Nat.sub_diag in N. cbn in N.
+        inversion N; subst. split; [reflexivity|exact Hle].
+    + rewrite nth_error_app2 in N by exact Ge.
+      destruct (i - length L1)%nat as [|k] eqn:Ek; [|destruct k; discriminate].
+      cbn in N. inversion N; subst. split; [lia|].
+      intros t' c' T' N'. rewrite nth_error_app2 in N' by lia.
+      replace (S i - length L1)%nat with 1%nat in N' by lia. discriminate.
+Qed.
+
+(* ------------------------------------------------------------------ the theorems *)
+(* transmission number i of a message carries counter i; the next one comes with the same T,
+   no earlier than T * 2^i after it *)
+Theorem rt_spacing : forall t0 nst evs u,
+  rt_nst_ok nst -> Forall rt_ev_ok evs ->
+  let tr := snd (rt_run (rt_init t0 nst) evs) in
+  forall i t c T, nth_error (rt_tproj u tr) i = Some (t, c, T) ->
+    c = Z.of_nat i /\
+    forall t' c' T', nth_error (rt_tproj u tr) (S i) = Some (t', c', T') ->
+      T' = T /\ t + T * 2 ^ Z.of_nat i <= t'.
+Proof.
+  intros t0 nst evs u Hn F tr i t c T N.
+  pose proof (rt_run_sinv evs (rt_init t0 nst) [] F (rt_inv_init t0 nst Hn) (rt_sinv_init t0 nst)) as H.
+  unfold tr in *. destruct (rt_run (rt_init t0 nst) evs) as [st o]. cbn [app snd] in *.
+  destruct H as [(_ & C & _) _]. destruct (rt_chain_nth _ (C u) i t c T N) as [Ei Nx].
+  split; [exact Ei|]. intros t' c' T' N'. rewrite <- Ei. apply (Nx t' c' T' N').
+Qed.
+
+(* the deadline of every queued message: last transmission + T * 2^retransmit_cnt, where the
+   last transmission is the one with counter retransmit_cnt and T is the node's timeout *)
+Theorem rt_deadline_law : forall t0 nst evs d n,
+  rt_nst_ok nst -> Forall rt_ev_ok evs ->
+  let st := fst (rt_run (rt_init t0 nst) evs) in
+  let tr := snd (rt_run (rt_init t0 nst) evs) in
+  In (d, n) (sq_abs (rs_base st) (rs_q st)) ->
+  exists l t, rt_tproj (qn_uid n) tr = l ++ [(t, qn_cnt n, qn_timeout n)] /\
+              d = t + qn_timeout n * 2 ^ qn_cnt n.
+Proof.
+  intros t0 nst evs d n Hn F st tr I.
+  pose proof (rt_run_sinv evs (rt_init t0 nst) [] F (rt_inv_init t0 nst Hn) (rt_sinv_init t0 nst)) as H.
+  unfold st, tr in *. destruct (rt_run (rt_init t0 nst) evs) as [st' o]. cbn [app fst snd] in *.
+  destruct H as [(Fa & _) _]. rewrite Forall_forall in Fa. apply (Fa (d, n) I).
+Qed.
+
+(* a message that waits for an NSTART slot has not been transmitted *)
+Theorem rt_held_not_sent : forall t0 nst evs n,
+  rt_nst_ok nst -> Forall rt_ev_ok evs ->
+  let st := fst (rt_run (rt_init t0 nst) evs) in
+  let tr := snd (rt_run (rt_init t0 nst) evs) in
+  In n (rt_held (rs_sess st)) -> rt_tproj (qn_uid n) tr = [].
+Proof.
+  intros t0 nst evs n Hn F st tr I.
+  pose proof (rt_run_sinv evs (rt_init t0 nst) [] F (rt_inv_init t0 nst Hn) (rt_sinv_init t0 nst)) as H.
+  unfold st, tr in *. destruct (rt_run (rt_init t0 nst) evs) as [st' o]. cbn [app fst snd] in *.
+  destruct H as [(_ & _ & _ & Hh & _) _]. rewrite Forall_forall in Hh. apply (Hh n I).
+Qed.
+
+Theorem rt_giveup_not_early : forall t0 nst evs tr1 t u s m c mx tr2,
+  rt_nst_ok nst -> Forall rt_ev_ok evs ->
+  snd (rt_run (rt_init t0 nst) evs) = tr1 ++ RoNack t u s rt_NACK_TOO_MANY_RETRIES m c mx :: tr2 ->
   exists l tl T, rt_tproj u tr1 = l ++ [(tl, c, T)] /\ tl + T * 2 ^ c <= t.
 Proof.
-  intros t0 evs tr1 t u s m c mx tr2 F E.
-  pose proof (rt_run_ginv evs (rt_init t0) [] F rt_rel_init (rt_sinv_init t0) rt_giveups_nil) as G.
-  cbn [app] in G. specialize (G tr1 _ tr2 E). cbn in G. apply G. reflexivity.
+  intros t0 nst evs tr1 t u s m c mx tr2 Hn F E.
+  pose proof (rt_run_sinv evs (rt_init t0 nst) [] F (rt_inv_init t0 nst Hn) (rt_sinv_init t0 nst)) as H.
+  destruct (rt_run (rt_init t0 nst) evs) as [st o]. cbn [app snd] in *.
+  destruct H as [(_ & _ & _ & _ & G) _]. specialize (G tr1 _ tr2 E). cbn in G. apply G. reflexivity.
 Qed.
